@@ -230,12 +230,14 @@ Fixpoint assign_pos (known : list pos) (ps : list pos) : list pos * list N :=
 Definition preload (grammar_pos : list pos) (num_system_pos : nat) : list pos :=
   if LF.preload_system_only then firstn num_system_pos grammar_pos else grammar_pos.
 
-(* a compiled user dictionary as far as POS go: its own POS table (ids >= start_pos) and the raw pos id of every word *)
+(* a compiled dictionary as far as POS go: its own POS table (ids >= start_pos) and the raw pos id of every word.
+   `reqs` = the POS the builder is asked for, in file order (inline split units of a row, then the row itself);
+   `idx`  = for every row the position of its own request in `reqs`. *)
 Record udict := mkU { u_table : list pos; u_word_pos : list N }.
 
-Definition build_user (preloaded : list pos) (word_pos : list pos) : udict :=
-  let (all, ids) := assign_pos preloaded word_pos in
-  mkU (skipn (length preloaded) all) ids.
+Definition build_dict (preloaded : list pos) (reqs : list pos) (idx : list nat) : udict :=
+  let (all, ids) := assign_pos preloaded reqs in
+  mkU (skipn (length preloaded) all) (map (fun i => nth i ids 0) idx).
 
 (* --- loader side --- *)
 Record lexset := mkSet { s_num_system_pos : N; s_pos_list : list pos; s_offsets : list N; s_words : list (list N) }.
@@ -286,28 +288,54 @@ Definition word_pos (s : lexset) (dic w : N) : option pos :=
 Definition restamp (dic : N) (ids : list N) : list N :=
   map (fun w => if cmp_eval LF.restamp_cmp (dic_of w) LF.restamp_rhs then stamp dic (word_of w) else w) ids.
 
-(* whole pipeline of one configuration: system POS, plugin requests, user dictionaries given by the POS of their rows and
-   the route they were compiled by (true = against the configured dictionary as it stands when this one is added,
+(* whole pipeline of one configuration: system dictionary, plugin requests, user dictionaries given by their POS requests
+   and the route they were compiled by (true = against the configured dictionary as it stands when this one is added,
    false = against the bare system dictionary) *)
-Fixpoint stack_users (s : lexset) (us : list (bool * list pos)) (nsys : nat) (sys_pos : list pos) : option lexset :=
+Definition user_src : Type := (bool * list pos * list nat)%type.
+
+Fixpoint stack_users (s : lexset) (us : list user_src) (sys_pos : list pos) : option lexset :=
   match us with
   | [] => Some s
-  | (configured, wp) :: t =>
-      let pre := if configured then preload (s_pos_list s) nsys else sys_pos in
-      match merge_user s (build_user pre wp) with
+  | (configured, reqs, idx) :: t =>
+      let pre := if configured then preload (s_pos_list s) (length sys_pos) else sys_pos in
+      match merge_user s (build_dict pre reqs idx) with
       | None => None
-      | Some s' => stack_users s' t nsys sys_pos
+      | Some s' => stack_users s' t sys_pos
       end
   end.
 
-Definition configure (sys_pos : list pos) (sys_word_pos : list N) (reqs : list (pos * bool))
-           (us : list (bool * list pos)) : option (lexset * list N) :=
-  match load_plugins sys_pos reqs with
+Definition configure (sys_reqs : list pos) (sys_idx : list nat) (plugins : list (pos * bool))
+           (us : list user_src) : option lexset :=
+  let sysd := build_dict [] sys_reqs sys_idx in
+  match load_plugins (u_table sysd) plugins with
   | None => None
-  | Some (pl, ids) =>
-      let s0 := mkSet (N.of_nat (length sys_pos)) pl [0] [sys_word_pos] in
-      match stack_users s0 us (length sys_pos) sys_pos with
-      | None => None
-      | Some s => Some (s, ids)
-      end
+  | Some (pl, _) =>
+      stack_users (mkSet (N.of_nat (length (u_table sysd))) pl [0] [u_word_pos sysd]) us (u_table sysd)
   end.
+
+(* ---------- correspondence-check entry for C12 ---------- *)
+(* obs: (dictionary, word, POS declared by the CSV row, POS the implementation reports (None = panic),
+         references of the row as stamped at build time, references the implementation reports);
+   mobs: (word id of a morpheme, Morpheme::dictionary_id) *)
+Definition obs_t : Type := (N * N * N * option N * list N * list N)%type.
+
+Definition check_obs (s : lexset) (o : obs_t) : bool :=
+  match o with
+  | (d, i, declared, impl_pos, build_refs, impl_refs) =>
+      opt_eqb N.eqb (word_pos s d i) impl_pos
+      && opt_eqb N.eqb impl_pos (Some declared)
+      && list_eqb N.eqb (restamp d build_refs) impl_refs
+      && forallb (fun w => (dic_of w =? 0) || (dic_of w =? d)) impl_refs
+  end.
+
+Definition check_case_c12 (sys_reqs : list pos) (sys_idx : list nat) (plugins : list (pos * bool))
+           (us : list user_src) (loaded : bool) (obs : list obs_t) (mobs : list (N * Z)) : bool :=
+  let full := configure sys_reqs sys_idx plugins us in
+  Bool.eqb loaded (match full with Some _ => true | None => false end)
+  && match configure sys_reqs sys_idx plugins (firstn (N.to_nat LM.MAX_DICTIONARIES - 1) us) with
+     | None => match obs with [] => true | _ => false end
+     | Some s =>
+         forallb (check_obs s) obs
+         && forallb (fun m => Z.eqb (reported_dic (fst m)) (snd m)
+                              && (is_oov (fst m) || (dic_of (fst m) <? N.of_nat (length (s_words s))))) mobs
+     end.
